@@ -176,6 +176,19 @@ def r2(ctx) -> None:
                 ok = is_add and txt in (f"{disp}*np.power(dist,{i}+1)", f"{disp}*dist**({i}+1)", f"np.power(dist,{i}+1)*{disp}")
         ctx.ob("C05-R2", f"dispersion/{what}-polynomial", ok, sp, loops[0] if loops else sp.node,
                f"{what} += c_i * dist**(i+1) for the i-th coefficient (first coefficient multiplies dist, no constant term)")
+    # the shift is applied exactly once: by the callers (centres - shift); parameter() must hand out unshifted centres
+    for rel_, nm_ in ((IRF, "IrfMultiGaussian.parameter"), (IRF, "IrfSpectralMultiGaussian.parameter")):
+        pf = ctx.fn(rel_, nm_)
+        bad = []
+        for t_, s_ in lib.stores(pf):
+            if isinstance(t_, ast.Name) and t_.id in ("centers", "center") and not isinstance(s_, ast.For):
+                v_ = s_.value
+                if any(isinstance(x, ast.Name) and x.id == "shift" for x in ast.walk(v_)) or "self.shift" in norm(v_):
+                    bad.append(s_)
+        ctx.ob("C05-R2", f"{nm_}/centres-returned-unshifted", not bad, pf, bad[0] if bad else pf.node,
+               "parameter() returns the centres *and* the shift; every caller forms `centres - shift` itself, so the centres must be "
+               "returned unshifted - subtracting here as well applies the shift twice",
+               construct=lib.short(bad[0]) if bad else f"def {nm_}")
     rets = lib.nodes(sp, ast.Return)
     ctx.ob("C05-R2", "dispersion/return-order", len(rets) == 1 and norm(rets[0].value) == "(centers, widths, scale, shift, backsweep, backsweep_period)", sp,
            rets[0] if rets else sp.node, "returns the dispersed centres and widths in the base class' order")
